@@ -432,3 +432,30 @@ func (s *Session) CheckT(extra []string, getValues []string, timeoutMs int) Solv
 	res.Time = time.Since(t0).Seconds()
 	return res
 }
+
+var interpretedHeads = map[string]bool{"and": true, "or": true, "not": true, "ite": true, "=": true, "=>": true, "<": true, "<=": true,
+	">": true, ">=": true, "+": true, "-": true, "*": true, "distinct": true, "let": true}
+
+// patternTerms turns a trigger term into terms usable in an SMT :pattern: a term whose head
+// is a connective or arithmetic operator cannot be matched, so it is replaced by its maximal
+// sub-terms with uninterpreted heads (select, functions) that mention a bound variable.
+func patternTerms(t string) []string {
+	args := topArgs(t)
+	if len(args) == 0 || !interpretedHeads[args[0]] {
+		return []string{t}
+	}
+	var out []string
+	seen := map[string]bool{}
+	for _, a := range args[1:] {
+		if !strings.Contains(a, "|$") || !strings.HasPrefix(a, "(") {
+			continue
+		}
+		for _, p := range patternTerms(a) {
+			if !seen[p] {
+				seen[p] = true
+				out = append(out, p)
+			}
+		}
+	}
+	return out
+}
